@@ -691,6 +691,11 @@ func (msc *MinerSmartContract) shareSignsOrShares(t *transaction.Transaction,
 			"getting miners DKG list %v", err)
 	}
 
+	if _, ok = dmn.SimpleNodes[t.ClientID]; !ok {
+		return "", common.NewError("share_signs_or_shares",
+			"miner not part of dkg set")
+	}
+
 	var sos = block.NewShareOrSigns()
 	if err = sos.Decode(inputData); err != nil {
 		return "", common.NewErrorf("share_signs_or_shares",
@@ -770,6 +775,10 @@ func (msc *MinerSmartContract) wait(t *transaction.Transaction,
 	var dmn *DKGMinerNodes
 	if dmn, err = getDKGMinersList(balances); err != nil {
 		return "", common.NewErrorf("msc - wait", "can't get DKG miners: %v", err)
+	}
+
+	if _, ok := dmn.SimpleNodes[t.ClientID]; !ok {
+		return "", common.NewError("msc - wait", "miner not part of dkg set")
 	}
 
 	if already, ok := dmn.Waited[t.ClientID]; ok && already {
